@@ -35,8 +35,9 @@ PROPS = {
     "C20": ("exploration", [("san", 2400), ("relpc", 1600)], [("san", 0.7), ("relpc", 0.3)]),
 }
 RULE_EXTRA = {
-    "C10": " Run indices 0-63 of every configuration enumerate all 8 enabled-feature masks x 32 feature values x 4 entry points.",
-    "C11": " Run indices 0-127 of every configuration sweep all 1025 month boundaries of the birthday range on both sides.",
+    "C10": " Run indices 0-63 of every configuration enumerate all 8 enabled-feature masks x 32 feature values x 4 entry points. One run in eight is a concurrent plan (2-3 tasks on their own seeds under the seeded scheduler; feature verdicts and queries must equal what each task observes alone).",
+    "C11": " Run indices 0-127 of every configuration sweep all 1025 month boundaries of the birthday range on both sides. One later run in eight is a concurrent plan (birthdays reported to each task must equal what it observes alone).",
+    "C12": " One run in eight is a concurrent plan (results of the password operation must equal what each task observes alone); one run in four injects allocation failures into every kind of operation.",
     "C13": " Run indices 0-583 of every configuration enumerate every sequence of length 1-3 over an alphabet of eight macro-operations (create, encode+decode, store+load, password operation, key derivation, free, enabling call, re-injection).",
     "C04": " One run in six is a concurrent plan (2-3 tasks deriving keys at once under the seeded scheduler).",
 }
@@ -207,20 +208,34 @@ def run_config(prop, cfg, exe, seed, budget, nworkers, tmp, runs_cap=10 ** 9, ch
             list(ex.map(pool_worker, range(nworkers)))
         res["fresh_processes"] = counter["next"]
         return res
-    procs = []
-    for w in range(nworkers):
-        log = open(os.path.join(outdir, "out-%d.txt" % w), "w")
-        p = subprocess.Popen([exe, "run", "--prop", prop, "--seed", str(seed), "--start", str(start), "--runs", str(runs_cap), "--worker", str(w), "--nworkers", str(nworkers),
-                              "--budget", "%.1f" % budget, "--outdir", outdir, "--data", DATA], stdout=log, stderr=subprocess.STDOUT)
-        procs.append((w, p, log))
-    for w, p, log in procs:
+    def launch(w, tag, st, runs):
+        log = open(os.path.join(outdir, "out-%d.txt" % tag), "w")
+        p = subprocess.Popen([exe, "run", "--prop", prop, "--seed", str(seed), "--start", str(st), "--runs", str(runs), "--worker", str(w), "--nworkers", str(nworkers),
+                              "--tag", str(tag), "--budget", "%.1f" % budget, "--outdir", outdir, "--data", DATA], stdout=log, stderr=subprocess.STDOUT)
+        return p, log
+
+    procs = [(w, w, start, runs_cap) + launch(w, w, start, runs_cap) for w in range(nworkers)]
+    restarts = 0
+    while procs:
+        w, tag, st, runs, p, log = procs.pop(0)
         try:
             rc = p.wait(timeout=budget * 6 + 600)
         except subprocess.TimeoutExpired:
             p.kill()
             rc = -9
         log.close()
-        _scan_worker_output(prop, exe, seed, outdir, w, rc, res)
+        before = len(res["crashes"])
+        _scan_worker_output(prop, exe, seed, outdir, tag, rc, res)
+        if len(res["crashes"]) > before and restarts < 4 and len(res["crashes"]) < 3:
+            # the worker died inside a run: a fresh process takes over the rest of its run indices
+            pp = res["crashes"][-1][0]
+            if pp:
+                last = int(os.path.basename(pp).rsplit("-", 1)[1].split(".")[0])
+                st2 = last + nworkers - w
+                runs2 = st + runs - st2
+                if runs2 > 0:
+                    restarts += 1
+                    procs.append((w, 1000 + restarts, st2, runs2) + launch(w, 1000 + restarts, st2, runs2))
     return res
 
 
